@@ -18,11 +18,18 @@ def judge(world, procs, sched, drv):
     base = {"op": "oracle", "before": snapshot_rows(obs["before"]), "after": snapshot_rows(obs["after"]), "mounts": mounts}
     dirs = sorted({d["dir"] for f in obs["facts"] for d in f["dirs"]})
     items = []
-    for f, pr in zip(obs["facts"], obs["procs"]):
+    bad_early = []
+    for f, pr, pw in zip(obs["facts"], obs["procs"], procs):
         it = f["items"][0]
         named = (b"'" + it["arg"] + b"'") in pr["stderr"]
+        if pw["meta"][0].get("contains_trash_dir"):
+            # (its entry holds the trash directory itself: the move is refused, the subtree changes through the others)
+            if pr["exit"] == 0:
+                bad_early.append({"oracle": "C01", "verdict": "a directory was 'trashed' into a trash directory inside itself"})
+            items.append({"entry": None, "reported": True})
+            continue
         items.append({"entry": hx(it["entry"]) if it["entry"] is not None else None, "reported": bool(named and pr["exit"] != 0)})
-    bad = []
+    bad = list(bad_early)
     r1 = drv.ask(dict(base, prop="C01", dirs=[hx(d) for d in dirs], items=items))
     r4 = drv.ask(dict(base, prop="C04", dirs=[hx(d) for d in dirs]))
     for nm, r in (("C01", r1), ("C04", r4)):
@@ -40,12 +47,18 @@ def judge(world, procs, sched, drv):
         if ent is None:
             expected.append(None)
             continue
+        custom = [d for d in f["dirs"] if d["kind"] == "custom"]
+        if custom:
+            expected.append(custom[0]["dir"])
+            continue
         ev = vol_of(ent)
         usable = [d for d in f["dirs"] if d.get("parentOk") and not d.get("blocked") and
                   ((d["kind"] == "home" and vol_of(d["dir"]) == ev) or (d["kind"] in ("top", "alt") and d["base"] == ev and vol_of(f["dirs"][0]["dir"]) != ev))]
         expected.append(usable[0]["dir"] if usable else None)
     new_infos = [p for p in st1 if p not in st0 and p.endswith(b".trashinfo") and b"/info/" in p]
     for k, (pr, exp) in enumerate(zip(obs["procs"], expected)):
+        if procs[k]["meta"][0].get("contains_trash_dir"):
+            continue
         if exp is not None and pr["exit"] != 0 and not pr["exc"]:
             bad.append({"oracle": "C07", "verdict": "process %d: %r is usable (or can be created) but the entry was not trashed: %r"
                                                     % (k, exp, pr["stderr"][-300:])})
@@ -73,9 +86,10 @@ def followups(world, procs, obs, what):
     before = snap_to_state(obs["before"])
     done = [(pr, w) for pr, w in zip(obs["procs"], procs) if pr["exit"] == 0]
     entries = [w["meta"][0]["entry"] for _pr, w in done]
+    td = procs[0]["opts"].get("trashDir")
     if what == "list":
-        wl = world_from_state(world, state, cmd="list", cwd=world["cwd"], opts={}, args=[], stdin=None)
-        wl["argv"] = []
+        wl = world_from_state(world, state, cmd="list", cwd=world["cwd"], opts={"userDirs": [td]} if td else {}, args=[], stdin=None)
+        wl["argv"] = cmd_argv(wl)
         o = run_world(wl, {})
         for e in entries:
             n = sum(1 for l in o["stdout"].split(b"\n") if l.endswith(b" " + e))
@@ -84,7 +98,8 @@ def followups(world, procs, obs, what):
                                                                     "process that reported success" % (n, e)})
     else:
         for e in entries:
-            wr = world_from_state(world, state, cmd="restore", cwd=world["cwd"], opts={"path": e, "sort": "path"}, args=[], stdin=b"0\n")
+            wr = world_from_state(world, state, cmd="restore", cwd=world["cwd"],
+                                  opts=dict({"path": e, "sort": "path"}, **({"trashDir": td} if td else {})), args=[], stdin=b"0\n")
             wr["argv"] = cmd_argv(wr)
             o = run_world(wr, {})
             after = snap_to_state(o["after"])
@@ -120,11 +135,39 @@ def replay_concurrent(pid, path, oracles=None):
 def par_task(task):
     rng = task_rng("C04par", task["seed"], task["i"])
     drv = driver()
-    nproc = rng.choice([2, 2, 2, 3])
+    world, procs, scenario, name, nproc = build_world(rng, task.get("scenario"), task.get("nproc"))
+    if task.get("preempt_sweep"):
+        # ONE preemption, at every position: process 0 runs k steps, then another process runs from start to end, then the
+        # rest - the systematic way into the window between two calls of process 0
+        bad, steps, runs = [], 0, 0
+        other = 1 if nproc > 1 else 0
+        for k in range(task["preempt_sweep"]):
+            sched = [0] * k + [other] * 2000
+            obs, b = judge(world, procs, sched, drv)
+            if task.get("follow"):
+                b = b + followups(world, procs, obs, task["follow"])
+            steps += len(obs["executed"])
+            runs += 1
+            if b:
+                bad = b
+                break
+            if obs["executed"][:k].count(0) < k:      # process 0 had finished before its k-th step
+                break
+        out = {"key": ("preempt-sweep", scenario, nproc, name, runs), "tags": ["scenario:" + scenario, "preempt-sweep", "procs:%d" % nproc],
+               "bad": bad, "steps": steps, "switches": 2 * runs}
+        if bad:
+            out["world"], out["procs"], out["schedule"] = jsonable(world), jsonable(procs), obs["executed"]
+            out["stderr"] = [repr(p["stderr"][-600:]) for p in obs["procs"]]
+        return out
+    return random_schedule(task, rng, drv, world, procs, scenario, name, nproc)
+
+
+def build_world(rng, scenario=None, nproc=None):
+    nproc = nproc or rng.choice([2, 2, 2, 3])
     w = W()
     uid = 1000
     home = w.dir(R + b"/home/u")
-    scenario = rng.choice(["first-use", "collision", "collision", "volume", "mixed-kinds"])
+    scenario = scenario or rng.choice(["first-use", "collision", "collision", "volume", "mixed-kinds", "self-containing"])
     where = home
     opts = {}
     if scenario == "volume":
@@ -133,11 +176,21 @@ def par_task(task):
         if rng.random() < 0.5:
             w.dir(R + b"/vol1/.Trash", 0o1777)
     name = rng.choice([b"same", b"a b", b"caf\xc3\xa9"])
+    if scenario == "self-containing":
+        # process 0 trashes the directory that holds the --trash-dir everybody uses: its info file is written, its move
+        # refused, its info file removed again - while the others trash entries of the same name into that directory
+        opts = {"trashDir": home + b"/dir0/" + name + b"/T"}
     procs = []
     for k in range(nproc):
         d = where + b"/dir%d" % k
         w.dir(d)
-        kind = make_entry(rng, w, d, name, rng.choice(["file", "tree", "link-dangling"]) if scenario == "mixed-kinds" else "file")
+        kind = make_entry(rng, w, d, name, rng.choice(["file", "tree", "link-dangling"]) if scenario == "mixed-kinds" else
+                          ("tree" if scenario == "self-containing" and (k == 0 or rng.random() < 0.5) else "file"))
+        if scenario == "self-containing" and k == 0:
+            w.dir(d + b"/" + name + b"/T", 0o700)
+            if rng.random() < 0.5:
+                w.dir(d + b"/" + name + b"/T/files", 0o700)
+                w.dir(d + b"/" + name + b"/T/info", 0o700)
         nodes = w.nodes
         if nodes[d + b"/" + name]["k"] == "f":
             nodes[d + b"/" + name]["data"] = b"payload of process %d" % k
@@ -145,7 +198,8 @@ def par_task(task):
         cwd = d if arg == name else home
         procs.append({"cwd": cwd, "cmd": "put", "args": [arg], "opts": opts, "argv": put_argv(opts, [arg]), "stdin": None,
                       "randints": [rng.randint(0, 65535) for _ in range(3)],
-                      "meta": [{"class": "entry", "kind": kind, "spelling": "x", "entry": d + b"/" + name}]})
+                      "meta": [dict({"class": "entry", "kind": kind, "spelling": "x", "entry": d + b"/" + name},
+                                    **({"contains_trash_dir": True} if scenario == "self-containing" and k == 0 else {}))]})
     if scenario in ("collision", "mixed-kinds"):
         t = home + b"/.local/share/Trash"
         w.dir(t, 0o700)
@@ -153,6 +207,10 @@ def par_task(task):
         w.dir(t + b"/info", 0o700)
         populate_trash(rng, w, t, [name], rng.randint(1, 3))
     world = w.world(env={"HOME": home}, uid=uid, cwd=home, cmd="put", args=[], opts=opts, argv=[], stdin=None, meta=[])
+    return world, procs, scenario, name, nproc
+
+
+def random_schedule(task, rng, drv, world, procs, scenario, name, nproc):
     # schedule: sticky random walk over the processes (few preemptions) or fully random
     L = rng.choice([0, 50, 150, 400])
     sticky = rng.choice([0.0, 0.5, 0.8, 0.95])
@@ -181,7 +239,12 @@ def add_concurrent(ck, tier, seed, oracles=None, n_quick=120, n_thorough=3000, f
     """`oracles`: which verdicts count for the calling check (None: all); `follow`: "list" / "restore" after the puts"""
     n = n_quick if tier == "quick" else n_thorough
     steps = 0
-    for r in run_tasks(par_task, [{"seed": seed, "i": i, "follow": follow} for i in range(n)]):
+    tasks = [{"seed": seed, "i": i, "follow": follow} for i in range(n)]
+    # directed part: one preemption of process 0 at each of its first 70 steps, for the scenarios where a window matters
+    ns = max(1, n // 40)
+    tasks += [{"seed": seed, "i": 100000 + j, "follow": follow, "scenario": sc, "nproc": 2, "preempt_sweep": 70}
+              for j in range(ns) for sc in ("self-containing", "collision", "first-use")]
+    for r in run_tasks(par_task, tasks):
         if "machinery" in r:
             raise MachineryError(r["machinery"])
         ck.case(r["key"], tags=["concurrent"] + r["tags"], sample={"concurrent": r["key"][0], "procs": r["key"][1], "steps": r["steps"]})
